@@ -41,6 +41,7 @@ var (
 	pxW      = chain.Acct("px-withdraw")
 	pxOther  = chain.Acct("px-other")
 	pxFresh  = chain.Acct("px-fresh") // an existing account without native coins (it only holds 5 uxmpl): empty in the EVM's eyes
+	pxGhost  = chain.Acct("px-ghost") // an address that has no account at all
 	pxVest   = chain.Acct("px-vest")  // clawback vesting account: 1,000,000 ISLM free + 500,000 ISLM locked for five and unvested for ten years
 )
 
@@ -190,7 +191,7 @@ func genPxPre(t *rapid.T, methods []string) *PxPre {
 	p.Val = rapid.IntRange(0, 2).Draw(t, "val")
 	p.Val2 = rapid.IntRange(0, 2).Draw(t, "val2")
 	p.Amt = rapid.SampledFrom([]string{"1", "1000", "100000", "399000", "400000", "401000", "800000", "801000", "5000000"}).Draw(t, "amt")
-	p.To = rapid.SampledFrom([]string{"w", "w", "signer", "self", "third", "fresh"}).Draw(t, "to")
+	p.To = rapid.SampledFrom([]string{"w", "w", "signer", "self", "third", "fresh", "ghost"}).Draw(t, "to")
 	if p.Method == "createValidator" {
 		p.Who = "signer" // only the transaction's origin may create its own validator
 	}
@@ -229,7 +230,7 @@ func genPxProgram(t *rapid.T, o pxGenOpts) PxProgram {
 					Value: rapid.SampledFrom([]string{"0", "0", "0", "1"}).Draw(t, "prevalue"), Note: pre.Pre + "." + pre.Method}
 				f.Ops = append(f.Ops, PxOp{Op: op, Pre: pre})
 			case "send":
-				f.Ops = append(f.Ops, PxOp{Op: evmasm.Op{Kind: "send", Target: rapid.SampledFrom([]string{"signer", "third", "w", "frame0", "frame1", "frame2", "fresh"}).Draw(t, "sendto"),
+				f.Ops = append(f.Ops, PxOp{Op: evmasm.Op{Kind: "send", Target: rapid.SampledFrom([]string{"signer", "third", "w", "frame0", "frame1", "frame2", "fresh", "ghost"}).Draw(t, "sendto"),
 					Value: rapid.SampledFrom([]string{"1", "1000", "1000000000000000000", "0"}).Draw(t, "sendv")}})
 			case "sstore":
 				f.Ops = append(f.Ops, PxOp{Op: evmasm.Op{Kind: "sstore", Key: uint64(rapid.IntRange(0, 3).Draw(t, "key")), Val: uint64(rapid.IntRange(0, 2).Draw(t, "val"))}})
@@ -262,9 +263,18 @@ func genPxProgram(t *rapid.T, o pxGenOpts) PxProgram {
 		// (it becomes the withdraw address and rewards are withdrawn to it), all in one transaction
 		who := rapid.SampledFrom([]string{"self", "signer"}).Draw(t, "touch-who")
 		v := rapid.IntRange(0, 2).Draw(t, "touch-val")
-		pre := []PxOp{{Op: evmasm.Op{Kind: "send", Target: "fresh", Value: "0"}},
-			{Op: evmasm.Op{Kind: "pre", CallOp: "CALL", Value: "0", Note: "distribution.setWithdraw"}, Pre: &PxPre{Pre: "distribution", Method: "setWithdraw", Who: who, To: "fresh", Amt: "1"}},
+		// (the touched account either exists without native coins, or does not exist at all)
+		tgt := rapid.SampledFrom([]string{"fresh", "ghost"}).Draw(t, "touch-target")
+		pre := []PxOp{{Op: evmasm.Op{Kind: "send", Target: tgt, Value: "0"}},
+			{Op: evmasm.Op{Kind: "pre", CallOp: "CALL", Value: "0", Note: "distribution.setWithdraw"}, Pre: &PxPre{Pre: "distribution", Method: "setWithdraw", Who: who, To: tgt, Amt: "1"}},
 			{Op: evmasm.Op{Kind: "pre", CallOp: "CALL", Value: "0", Note: "distribution.withdraw"}, Pre: &PxPre{Pre: "distribution", Method: "withdraw", Who: who, Val: v, Amt: "1"}}}
+		if rapid.Bool().Draw(t, "touch-then-pay") {
+			// ...and afterwards receives value from the EVM as well
+			pre = append(pre, PxOp{Op: evmasm.Op{Kind: "send", Target: tgt, Value: "9"}})
+			if p.Value == "0" {
+				p.Value = "1000000000000000000"
+			}
+		}
 		p.Frames[0].Ops = append(pre, p.Frames[0].Ops...)
 	}
 	// drop frames that are never called (keeps the case small)
@@ -283,6 +293,8 @@ func pxAddrOf(name string, self common.Address) common.Address {
 		return pxW.Hex
 	case name == "fresh":
 		return pxFresh.Hex
+	case name == "ghost":
+		return pxGhost.Hex
 	case name == "self":
 		return self
 	case strings.HasPrefix(name, "frame"):
@@ -484,7 +496,7 @@ func pxAccount(n *chain.Node, addr sdk.AccAddress) pxAccountState {
 }
 
 func pxAllAccounts() map[string]sdk.AccAddress {
-	m := map[string]sdk.AccAddress{"signer": pxSigner.Addr, "third": pxThird.Addr, "w": pxW.Addr, "other": pxOther.Addr, "fresh": pxFresh.Addr,
+	m := map[string]sdk.AccAddress{"signer": pxSigner.Addr, "third": pxThird.Addr, "w": pxW.Addr, "other": pxOther.Addr, "fresh": pxFresh.Addr, "ghost": pxGhost.Addr,
 		"staking-precompile": sdk.AccAddress(pabi.StakingAddr.Bytes()), "distribution-precompile": sdk.AccAddress(pabi.DistributionAddr.Bytes()),
 		"bonded-pool": authtypes.NewModuleAddress(stakingtypes.BondedPoolName), "not-bonded-pool": authtypes.NewModuleAddress(stakingtypes.NotBondedPoolName),
 		"distribution": authtypes.NewModuleAddress(distrtypes.ModuleName), "fee-collector": authtypes.NewModuleAddress(authtypes.FeeCollectorName),
